@@ -1,12 +1,37 @@
 (* C20 -- isoparse never misreads: accepted text is an ISO-8601 spelling of the result; every
    other input is rejected with ValueError.
    Statements only; proofs are in iso/IsoThm*.v over the hand-written model iso/IsoModel.v
-   (tied to /repo/src/dateutil/parser/isoparser.py by harness/check_C20.py).
-   [iso_denotes] / [date_denotes] / [time_denotes] / [tzstr_denotes] are the grammar-style
-   recognisers of iso/IsoSpec.v; [lift None = Err ValueError], [lift (Some v) = Ok v]. *)
+   (regenerated from /repo/src/dateutil/parser/isoparser.py, see the last section; tied to the running
+   code by harness/check_C20.py).  [lift None = Err ValueError], [lift (Some v) = Ok v].
+
+   THE GRAMMAR THE THEOREMS ARE ABOUT.  Two recognisers appear:
+   * [iso_text] / [time_text] (iso/IsoText.v) is the grammar of the property TEXT, written from it;
+   * [iso_denotes] / [date_denotes] / [time_denotes] / [tzstr_denotes] (iso/IsoSpec.v) is the language of the
+     IMPLEMENTATION, proved equal to the model for all strings (C20_isoparse_equiv ...).  It is [iso_text] with
+     exactly two changes (C20_impl_language_is_recogniser), each an OPEN finding of known_findings.json:
+       F-C20-2400-subus         '...T24:00:00.0000009' is read as next-day midnight: the end-of-day check looks at
+                                the fraction truncated to microseconds.  An instant after 24:00 is not "within
+                                clock range": a misreading.  Guard [finding_2400_subus] / [subus24], witness
+                                C20_isoparse_text_sound_refuted_2400_subus.
+       F-C07-ordinal-digit-sep  'YYYYDDD' + a DIGIT as separator + time ('2014123412') is rejected although it has
+                                exactly one well-formed reading.  Rejecting is no misreading (C20's soundness
+                                needs no guard for it: C20_isoparse_text_sound_guarded); it is a finding of C07.
+   Choices of the text grammar that follow the property text and the parser's documentation, decided here:
+   * "separators used consistently" is per component: the date, the time and the offset are each entirely basic
+     or entirely extended, but may be combined freely ('20140101T12:30', '2014-01-01T1230+05:30'); C07 quantifies
+     over date form x time form x offset form as independent dimensions, so these are renderings it demands;
+   * the UTC designator is 'Z' or 'z' (the parser implements both; C07: "documents or implements");
+   * '-00:00' / '-00' / '-0000' are offset zero, hence UTC (C07: "offset zero represented as UTC");
+   * with no configured separator ANY single ASCII byte separates date and time (C07: "any single separator
+     character"), including '+', '-', 'Z', ':', NUL, LF and digits: '2014-01-01-12-05' is 2014-01-01, separator
+     '-', 12 h, offset -05:00.  That is the value this representation denotes under "any single character";
+     pass sep='T' for strict ISO-8601 (then every other separator is rejected: C20_wrong_separator_rejected);
+   * a configured separator is a one-character TEXT string; isoparser(sep=b'T') raises TypeError in Python 3
+     (`sep in '0123456789'`) before any input is seen: a wrongly typed constructor argument is outside the
+     property (its quantifier ranges over input strings x configured separator characters). *)
 From Coq Require Import ZArith List Bool.
 From V Require Import base.Cal iso.IsoBase iso.IsoModel iso.IsoSpec iso.IsoThm iso.IsoThmTz iso.IsoThmTime
-                      iso.IsoThmMain iso.IsoThmRender iso.IsoThmConverse.
+                      iso.IsoThmMain iso.IsoThmRender iso.IsoThmConverse iso.IsoText iso.IsoTextThm.
 Import ListNotations.
 Open Scope Z_scope.
 
@@ -73,7 +98,7 @@ Print Assumptions C20_non_ascii_rejected.
    separators, a single separator byte equal to the configured one, supported offset form), of a valid
    date and time, and the value returned is the value that rendering denotes -- the datetime itself, or
    for the hour-24 spelling midnight of the following day.  (Fraction digits beyond microseconds are
-   free: '24:00:00.0000009' is read as 24:00.) *)
+   free: '24:00:00.0000009' is read as 24:00 -- the open finding F-C20-2400-subus.) *)
 Theorem C20_accepted_is_rendering : forall sep s v, isoparse sep s = Ok v ->
   exists f o y m d h mi sec us,
     wf_fmt f sep o = true /\ valid_ymd y m d = true /\
@@ -105,6 +130,42 @@ Theorem C20_wrong_separator_rejected : forall x f y m d c t,
   isoparse (Some x) (render_date f y m d ++ c :: t) = Err ValueError.
 Proof. exact wrong_separator_rejected. Qed.
 Print Assumptions C20_wrong_separator_rejected.
+
+(* ------------------------------------------------------------------------------------------------
+   The same statements against the grammar of the property TEXT (iso/IsoText.v); guards = the open findings. *)
+
+(* the implementation's language is the text grammar with the two listed variants switched on *)
+Theorem C20_impl_language_is_recogniser : forall sep s,
+  iso_text_v impl_language sep s = iso_denotes sep s.
+Proof. exact impl_language_is_iso_denotes. Qed.
+Print Assumptions C20_impl_language_is_recogniser.
+
+(* never misreads, guard = complement of F-C20-2400-subus only *)
+Theorem C20_isoparse_text_sound_guarded : forall sep s v,
+  finding_2400_subus s = false -> isoparse sep s = Ok v -> iso_text sep s = Some v.
+Proof. exact isoparse_text_sound_guarded. Qed.
+Print Assumptions C20_isoparse_text_sound_guarded.
+
+(* model = text grammar as functions (acceptance, value, ValueError) outside both findings *)
+Theorem C20_isoparse_text_equiv_guarded : forall sep s,
+  finding_ordinal_digit sep s = false -> finding_2400_subus s = false ->
+  isoparse sep s = lift (iso_text sep s).
+Proof. exact isoparse_text_equiv_guarded. Qed.
+Print Assumptions C20_isoparse_text_equiv_guarded.
+
+Theorem C20_parse_isotime_text_equiv_guarded : forall s,
+  subus24 s = false -> parse_isotime s = lift (time_text s).
+Proof. exact parse_isotime_text_equiv_guarded. Qed.
+Print Assumptions C20_parse_isotime_text_equiv_guarded.
+
+(* inside the guard the unguarded statement is false: '2014-01-01T24:00:00.0000009', '24:00:00.0000009' *)
+Theorem C20_isoparse_text_sound_refuted_2400_subus :
+  finding_2400_subus w_subus = true /\
+  isoparse None w_subus = Ok (2014, 1, 2, 0, 0, 0, 0, TzNone) /\ iso_text None w_subus = None /\
+  subus24 w_subus_time = true /\
+  parse_isotime w_subus_time = Ok (0, 0, 0, 0, TzNone) /\ time_text w_subus_time = None.
+Proof. exact isoparse_text_sound_refuted_2400_subus. Qed.
+Print Assumptions C20_isoparse_text_sound_refuted_2400_subus.
 
 (* non-vacuity: concrete strings on both sides of each statement *)
 Example C20_ex_accept :
@@ -172,23 +233,32 @@ Theorem C20_gen_parse_isotime_raw : forall t, gen__parse_isotime t = parse_isoti
 Proof. exact gen_parse_isotime_raw_eq. Qed.
 Print Assumptions C20_gen_parse_isotime_raw.
 
-Theorem C20_gen_isoparse : forall sep s, gen_isoparse (sep_bytes sep) s = isoparse sep s.
+(* the decorator _takes_ascii, translated as well: [pyin] = a str, a bytes object, or a stream whose read()
+   returns either; [codes i] = its characters / bytes.  The entry points see only [codes i]. *)
+Theorem C20_gen_takes_ascii : forall (A : Type) (i : pyin) (f : list Z -> res A),
+  gen_takes_ascii i f = takes_ascii (codes i) f.
+Proof. exact (fun A => @gen_takes_ascii_eq A). Qed.
+Print Assumptions C20_gen_takes_ascii.
+
+Theorem C20_gen_isoparse : forall sep i, gen_isoparse (sep_bytes sep) i = isoparse sep (codes i).
 Proof. exact gen_isoparse_eq. Qed.
 Print Assumptions C20_gen_isoparse.
 
-Theorem C20_gen_entry_points : forall s z,
-  gen_parse_isodate s = parse_isodate s /\ gen_parse_isotime s = parse_isotime s /\
-  gen_parse_tzstr s z = parse_tzstr s z.
-Proof. exact (fun s z => conj (gen_parse_isodate_eq s) (conj (gen_parse_isotime_eq s) (gen_parse_tzstr_eq s z))). Qed.
+Theorem C20_gen_entry_points : forall i z,
+  gen_parse_isodate i = parse_isodate (codes i) /\ gen_parse_isotime i = parse_isotime (codes i) /\
+  gen_parse_tzstr i z = parse_tzstr (codes i) z.
+Proof. exact (fun i z => conj (gen_parse_isodate_eq i) (conj (gen_parse_isotime_eq i) (gen_parse_tzstr_eq i z))). Qed.
 Print Assumptions C20_gen_entry_points.
 
-(* hence, for the translated source itself: accepted text = recognised text, ValueError otherwise *)
-Theorem C20_gen_isoparse_equiv : forall sep s, gen_isoparse (sep_bytes sep) s = lift (iso_denotes sep s).
+(* hence, for the translated source itself and every kind of input: accepted text = recognised text,
+   ValueError otherwise *)
+Theorem C20_gen_isoparse_equiv : forall sep i,
+  gen_isoparse (sep_bytes sep) i = lift (iso_denotes sep (codes i)).
 Proof. exact gen_isoparse_equiv. Qed.
 Print Assumptions C20_gen_isoparse_equiv.
 
-Theorem C20_gen_aux_equiv : forall s z,
-  gen_parse_isodate s = lift (date_denotes s) /\ gen_parse_isotime s = lift (time_denotes s) /\
-  gen_parse_tzstr s z = lift (tzstr_denotes z s).
+Theorem C20_gen_aux_equiv : forall i z,
+  gen_parse_isodate i = lift (date_denotes (codes i)) /\ gen_parse_isotime i = lift (time_denotes (codes i)) /\
+  gen_parse_tzstr i z = lift (tzstr_denotes z (codes i)).
 Proof. exact gen_aux_equiv. Qed.
 Print Assumptions C20_gen_aux_equiv.
